@@ -436,4 +436,48 @@ Section ESRP.
     destruct (loop_total fuel s0 [] [] I0 ltac:(lia)) as [k [c [o [ty [E2 [Fc Hk]]]]]].
     exists k, c, o, ty. rewrite E2. repeat split; try assumption. lia.
   Qed.
+
+  (* ---------- a stream that ends inside a code unit (the F05 history) ---------- *)
+
+  (* at end of file a window whose length is not a whole number of code units is never passed over
+     silently: under Skip the mark is appended and the window dropped, under ThrowError the call
+     reports DecodeError *)
+  Lemma decode_chunk_partial_unit e s out : EInv s ->
+    is_eof (e_is s) = true -> (e_end s - e_start s) mod unit_size (utf_width e) <> 0 ->
+    exists c s' o, esr_decode_chunk tgt pol mark e s out = Ok (c, s', o) /\
+      (c = ChDecodeError \/
+       (pol = Skip /\ c = ChSuccess /\ e_start s' = e_end s' /\ exists o', o = o' ++ mark)).
+  Proof.
+    intros I Heof Hmod. unfold esr_decode_chunk. rewrite Heof.
+    set (w := utf_width e) in *. set (u := unit_size w) in *. set (n := e_end s - e_start s) in *.
+    set (a := n - n mod u).
+    assert (Hu : 1 <= u) by (subst u; destruct (unit_size_cases w) as [H|[H|H]]; rewrite H; lia).
+    assert (Hq : exists q, a = u * q /\ a < n).
+    { exists (n / u). subst a. pose proof (Nat.div_mod n u ltac:(lia)) as Hdm.
+      set (q := n / u) in *. set (md := n mod u) in *. clearbody q md. split; lia. }
+    destruct Hq as [q [Ha Han]].
+    pose proof I as I'. destruct I'.
+    assert (Ls : length (slice (e_buf s) (e_start s) a) = a) by (rewrite slice_length; lia).
+    rewrite class_decode_core.
+    set (W := adapt (utf_endian e) w (le_units w (slice (e_buf s) (e_start s) a))).
+    assert (HW : units w W).
+    { subst W. apply adapt_units. apply le_units_units. apply bytes_slice. exact e_by0. }
+    assert (LW : length W = q).
+    { subst W. assert (L0 : length (le_units w (slice (e_buf s) (e_start s) a)) = q).
+      { rewrite le_units_length, Ls. fold u. rewrite Ha, Nat.mul_comm, Nat.div_mul by lia. reflexivity. }
+      destruct (utf_endian e); cbn [adapt]; [exact L0 | rewrite map_length; exact L0]. }
+    destruct (core_bounds w tgt pol mark W out HW) as [B1 [B2 _]].
+    set (r := core_decode w tgt pol mark W out) in *. rewrite LW in B2.
+    assert (Hp : e_start s + r_pos r * u < e_end s) by nia.
+    destruct (r_code r) eqn:Ec; try congruence.
+    - cbn [e_start e_end].
+      replace (negb (e_start s + r_pos r * u =? e_end s)) with true by (symmetry; apply negb_true_iff, Nat.eqb_neq; lia).
+      destruct pol; eexists _, _, _; (split; [reflexivity|]).
+      + right. cbn [e_start e_end]. repeat split. eexists; reflexivity.
+      + left. reflexivity.
+    - eexists _, _, _. split; [reflexivity|]. left. reflexivity.
+    - destruct pol; eexists _, _, _; (split; [reflexivity|]).
+      + right. cbn [e_start e_end]. repeat split. eexists; reflexivity.
+      + left. reflexivity.
+  Qed.
 End ESRP.
